@@ -528,8 +528,8 @@ pub fn check(paths: &Paths, tier: &str) -> i32 {
     samples.extend(d.samples.iter().cloned());
 
     // ---------------- tier S (shuttle) ----------------
-    let s_rounds = env_u64("VERIF_S_ROUNDS", if thorough { 200 } else { 12 });
-    let st = match crate::tiers::run_tier(paths, seed, s_rounds, env_u64("VERIF_S_SCHEDULES", if thorough { 16 } else { 8 }), &known) {
+    let s_rounds = env_u64("VERIF_S_ROUNDS", if thorough { 300 } else { 24 });
+    let st = match crate::tiers::run_tier(paths, seed, s_rounds, env_u64("VERIF_S_SCHEDULES", if thorough { 16 } else { 12 }), &known) {
         Ok(s) => s,
         Err(e) => {
             eprintln!("envsim: harness error: {e}");
